@@ -75,7 +75,16 @@ func c09Run(c c09Case) Verdict {
 	cls := map[string]bool{}
 	var wantNext [][]byte // every octet string the mechanisms must have received, in order
 	wantNil := []bool{}
+	gaveUp := false
+	closedNow := func() bool {
+		r.Hub.Lock()
+		defer r.Hub.Unlock()
+		return w.S.ClosedLocked()
+	}
 	for ai, a := range c.Acts {
+		if gaveUp {
+			break
+		}
 		exch := func(line string) ([]harness.Reply, []harness.Event, string) {
 			out, st := w.Exchange([]byte(line + "\r\n"))
 			rs, perr := harness.ParseReplies(out)
@@ -145,6 +154,19 @@ func c09Run(c c09Case) Verdict {
 				return fail(failf("starttls", "STARTTLS answered %v %s", codes(rs), e))
 			}
 			rs, _, e = exch("this-is-not-a-tls-handshake")
+			if closedNow() {
+				// giving up the connection after a failed handshake (with or
+				// without a last negative reply) is a legitimate answer: the
+				// conversation is over
+				for _, rp := range rs {
+					if rp.Class() == 2 || rp.Class() == 3 {
+						return fail(failf("starttls", "plaintext instead of a TLS handshake answered %v", codes(rs)))
+					}
+				}
+				cls["failed_handshake_connection_given_up"] = true
+				gaveUp = true
+				break
+			}
 			if e != "" || len(rs) != 1 || rs[0].Class() == 2 {
 				return fail(failf("starttls", "plaintext instead of a TLS handshake answered %v %s", codes(rs), e))
 			}
